@@ -377,13 +377,23 @@ func uniq(a []int) []int {
 type CLICase struct {
 	Blocks  int `json:"blocks"`
 	Workers int `json:"workers"`
+	// FailAt > 0: before the commits above, a `wrgl commit` of the same data runs with its
+	// FailAt-th storage write failing (verif hook; Persist: and every later one): it must come
+	// back with an error - progress bars and all - and leave a repository the next commit works on
+	FailAt  int  `json:"fail_at,omitempty"`
+	Persist bool `json:"persist,omitempty"`
 }
 
 var subCLI = evid.Register("cli-commit-merge", runCLI)
 
 func TestPropCLI(t *testing.T) {
 	rapid.Check(t, func(t *rapid.T) {
-		subCLI.Check(t, CLICase{Blocks: rapid.SampledFrom([]int{1, 2, 3, 6}).Draw(t, "blocks"), Workers: rapid.SampledFrom([]int{1, 4, 8, 16}).Draw(t, "workers")})
+		c := CLICase{Blocks: rapid.SampledFrom([]int{1, 2, 3, 6}).Draw(t, "blocks"), Workers: rapid.SampledFrom([]int{1, 4, 8, 16}).Draw(t, "workers")}
+		if rapid.Bool().Draw(t, "fault") {
+			c.FailAt = rapid.IntRange(1, 2*c.Blocks+4).Draw(t, "failAt")
+			c.Persist = rapid.Bool().Draw(t, "persist")
+		}
+		subCLI.Check(t, c)
 	})
 }
 
@@ -396,6 +406,18 @@ func runCLI(c CLICase) (o evid.Outcome, err error) {
 	base := procTable(c.Blocks, 30, 7)
 	fp, _ := repo.WriteFile("base.csv", base.CSV(','))
 	w := fmt.Sprint(c.Workers)
+	if c.FailAt > 0 {
+		verifhook.SetPlan(verifhook.Plan{FailAt: c.FailAt, Dead: c.Persist})
+		_, ferr := repo.Run("commit", "main", fp, "base", "-p", "id", "-n", w)
+		_, hit := verifhook.Writes()
+		verifhook.SetPlan(verifhook.Plan{})
+		if hit && ferr == nil && c.Persist {
+			return o, fmt.Errorf("`wrgl commit -n %s`: every storage write from #%d on failed, yet the command reported success", w, c.FailAt)
+		}
+		if hit {
+			o.Class("cli-commit-with-failing-write")
+		}
+	}
 	if out, err := repo.Run("commit", "main", fp, "base", "-p", "id", "-n", w); err != nil {
 		return o, fmt.Errorf("commit: %v (%s)", err, out)
 	}
